@@ -5,7 +5,7 @@ SPEC = dict(
     sources=["SimbodyModel/Proto.lean", "SimbodyModel/C04.lean", "SimbodyProofs/C04_lemmas.lean",
              "SimbodyProofs/C04.lean", "Drivers/C04.lean"],
     lake_targets=["SimbodyProofs.C04_lemmas"],
-    n=dict(quick=400, thorough=4000),
+    n=dict(quick=300, thorough=4000),
     modes=["", "big"],          # "": 1..12 bodies, n trees;  "big": 13..40 bodies, n/10 trees
     rtol=1e-9, atol=1e-12,
     rule="random trees from VERIF_SEED (chain / star / random branching; 19 mobilizer types incl. FunctionBased(Custom), "
